@@ -229,6 +229,11 @@ void CmdOptions::optionCount(Option& opt)
 
   int n = opt.getValue<int>();
 
+  // -c0, --count=0 and negative values select nothing,
+  // they must not silently count primes instead.
+  if (n <= 0)
+    throw primesieve_error("invalid option '" + opt.str + "'");
+
   for (; n > 0; n /= 10)
   {
     switch (n % 10)
